@@ -16,6 +16,13 @@ Conforms(e) ==
    /\ e.seal = c
    /\ ("hdr" \in DOMAIN e) => (e.hdr = c)
    /\ ("side" \in DOMAIN e) => (e.side = c)
+   /\ ("hdrs" \in DOMAIN e) => (e.hdrs = c)
+   \* the same entry points when the stub chain already stores the honest header of this number
+   /\ ("sealK" \in DOMAIN e) => (e.sealK = c)
+   /\ ("sideK" \in DOMAIN e) => (e.sideK = c)
+   /\ ("hdrK" \in DOMAIN e) => (e.hdrK = CodeAcceptsKnown(Fixtures[e.desc.cfg], e.desc))
+   /\ ("hdrsK" \in DOMAIN e) => (e.hdrsK = CodeAcceptsKnown(Fixtures[e.desc.cfg], e.desc))
+   /\ ("acK" \in DOMAIN e) => (e.acK = CodeAcceptsAC(Fixtures[e.desc.cfg], e.desc))
    /\ e.accept = c
    /\ ("ac" \in DOMAIN e) => (e.ac = CodeAcceptsAC(Fixtures[e.desc.cfg], e.desc))
 
